@@ -113,18 +113,18 @@ CLAIMS = {
 ADDENDA = {
  "C01": "Also: raw blob packages whose buffer the caller overwrites right after queueing; messages whose flush is attempted with a cancelled context. A package whose encoding fails half-way followed by Reset (nothing of it reaches the transport); two channels of one connection sending at once. Packages that cannot be serialised (at all, or only for their first n bytes) in the middle of a message; other members around PACKSIZE in its ENVCHANGE; a message given up without a flush. The last message of a history flushed by closing the channel (Close's logout completes it).",
  "C02": "Also: extra header status bits, io.EOF arriving with the last read, a request completing while the response is already arriving, and 2..3 connections of one process receiving at the same time with their header fragments interleaved by a generated schedule. An earlier response on the channel, header-only control packets between the fragments, and 2..3 channels of ONE connection whose packets arrive interleaved. Rows with BLOB columns of several data sets (oracle: same delivery as unfragmented); responses of a few KB in thousands of packets of 1..7 body bytes. Responses with tokens the library has no parser for.",
- "C03": "Also: requests completing late, extra status bits, and the rest of a response arriving while a polling (wait=false) or waiting consumer is already underway in its own goroutine. DONE status bits beyond the named ones (ATTN, arbitrary combinations), a callback that cancels its own context before it fails. NORMAL-typed packets; responses carrying an environment change the library refuses (reported once, the rest delivered, one final DONE, next response complete). The error of a failing callback carries the server messages that preceded it.",
+ "C03": "Also: requests completing late, extra status bits, and the rest of a response arriving while a polling (wait=false) or waiting consumer is already underway in its own goroutine. DONE status bits beyond the named ones (ATTN, arbitrary combinations), a callback that cancels its own context before it fails. NORMAL-typed packets; responses carrying an environment change the library refuses (reported once, the rest delivered, one final DONE, next response complete). The error of a failing callback carries the server messages that preceded it. Package queues (Info.ChannelPackageQueueSize) of 0..3 slots and of exactly as many slots as the response delivers packages, packets arriving from a goroutine of their own, consumer starting late: the supplied final DONE still arrives.",
  "C04": "Also: the package leg (values inside PARAMS/ROW behind a decoded format, further rows through the same package object), arbitrary instants of the day, values printed between the steps (what package logging does) and sent twice. Text pointers up to 255 bytes, concurrent round trips under the race detector. Column status bytes in the package leg; strings with byte order marks, separators and control characters; temporal values of zones with daylight saving on clock-change days. Result sets through a real channel with an informational message / environment change between the rows.",
  "C05": "Also: decoded instants compared at 1 ms with the exact tick value, a sweep of tick values on the wire, and sequences of 2..6 conversions whose earlier results must stay right after the later ones (no shared storage). Values written through the field layer of a PARAMS package compared with the reference bytes; local time zones with DST; concurrent conversions under the race detector. Go values printed before they are encoded and encoded twice; UNITEXT with NUL inside the text. Refused conversion attempts (wrong Go type / width / byte count) inside sequences of conversions.",
- "C06": "Also: EED messages with a trailing newline, every Encrypt id 1..40 in the login record. The login record printed before it is written and written twice. Names and texts that begin or end with padding-like characters (NUL, blank, newline). ORDER BY packages and earlier rows between a row and its format.",
+ "C06": "Also: EED messages with a trailing newline, every Encrypt id 1..40 in the login record. The login record printed before it is written and written twice. Names and texts that begin or end with padding-like characters (NUL, blank, newline). ORDER BY packages and earlier rows between a row and its format. Client-built cursor packages that carry id and name at once (bytes of the id alone).",
  "C07": "Also: a used channel (completed response before), the environment hook count over re-parses, and a request completing between the truncated attempt and the complete bytes. Packages of 1 KB..300 KB (1 MB in the thorough tier) arriving in hundreds of packets, checked after every packet. A control packet between the halves of a package; halves delivered through the reader with empty packets between.",
- "C08": "Also: one all-zero capability mask type, whitespace keys, packet sizes >= 32768, nonces at the OAEP capacity, package queues of size 0/1/2/5 (the reader has to wait for Login). A further capability type with an empty or non-empty mask; per-server capabilities of an earlier connection stay untouched. Cipher suites sharing bits with the supported one; filtered packages inserted at every position of the replies; the valid replies of the other flow.",
- "C09": "Also: pairwise distinct ciphertexts for equal secrets, 2..8 logins running concurrently, and 2..3 logins over ONE connection (retry after a rejected login): session key and ciphertexts fresh per login. 20..1030 logins in one process (10010 in the thorough tier): no session key and no ciphertext is ever sent twice; remote names longer than 255 bytes. A connection described as TLS; nonces that leave room for short secrets but not for the session key (the login has to fail). One login configuration object reused over several logins, plain logins first.",
+ "C08": "Also: one all-zero capability mask type, whitespace keys, packet sizes >= 32768, nonces at the OAEP capacity, package queues of size 0/1/2/5 (the reader has to wait for Login). A further capability type with an empty or non-empty mask; per-server capabilities of an earlier connection stay untouched. Cipher suites sharing bits with the supported one; filtered packages inserted at every position of the replies; the valid replies of the other flow. An additional LOGINACK of every status and an additional DONE inserted at every position of both replies.",
+ "C09": "Also: pairwise distinct ciphertexts for equal secrets, 2..8 logins running concurrently, and 2..3 logins over ONE connection (retry after a rejected login): session key and ciphertexts fresh per login. 20..1030 logins in one process (10010 in the thorough tier): no session key and no ciphertext is ever sent twice; remote names longer than 255 bytes. A connection described as TLS; nonces that leave room for short secrets but not for the session key (the login has to fail). One login configuration object reused over several logins, plain logins first. The refusals of the first reply one by one (unknown cipher suite, parameter count and types, LOGINACK(FAIL) at once): every error text searched for the secrets.",
  "C10": "Also: packet size lowered mid-response, hostile key parameters in the login negotiation, formats with BLOB columns followed by blob rows whose data sets announce up to 2^26 bytes (allocation measured for every case). A packet size announced while a message is being assembled; responses of up to 500000 packages (3 million in the thorough tier) drained three ways with the growth of goroutine stacks bounded; arbitrary capability types and masks in the login responses. Well-formed public keys of other algorithms / encodings / PEM types in the negotiation. A channel closed while the reader is inside a packet that holds more packages than the queue takes; thousands of broken packets nobody collects the errors of (goroutine count).",
- "C11": "Also: callback errors wrapping io.EOF or a foreign *EEDError, the error's message list compared exactly (nothing foreign, nothing twice), a consumer polling with wait=false while the packets arrive. After every packet size announcement a request longer than one packet is sent on the (older) channel and must go out in full packets of the new size; hook slices shared between registrations. Callbacks that return (true, err). Environment values of 254 / 255 bytes.",
- "C12": "Also: packets for closed channels, more than 256 packets on a channel, a channel whose consumer is behind while another channel is closed, channels created after closes (late packets for closed ids reach nobody, ids distinct over the connection's history). A teardown acknowledged by the server while the channel is still registered; 40..520 channels created and closed over the life of one connection (33000 in the thorough tier), every id new and every response routed. A channel whose error queue is full is closed, the others go on.",
- "C13": "Also: header-only control packets in a full queue, Close with a cancelled parent context while a send is parked, 2..3 overlapping Close calls (Channel.Close during Conn.Close), and what a consumer woken by Close is told. A context cancelled from inside the transport's k-th write of a request (nothing more is written); Conn.Close with a gap in the channel ids; the closed condition checked the moment any of several overlapping Close calls returns. A next request (live context) after every send with a cancelled context: nothing of the cancelled one may be written later either; Reset() called before cancel / Close. Contexts cancelled with a cause / deadline with a cause; the main channel closed before Conn.Close; a parked request of several packets, also on the main channel (Close's logout waits for the message being sent).",
- "C14": "Also: three further receive calls after the failure, a consumer polling with wait=false after the prefix, and a request whose 1st..3rd write fails before the response arrives. The end of the stream reported by an error wrapping io.EOF (tunnelled transport), with or without the last bytes; packets of type NORMAL. Up to 40 further receive calls after the failure (more than the connection's error queue holds). A waiting consumer collects the buffered packages before it is told about the failure.",
+ "C11": "Also: callback errors wrapping io.EOF or a foreign *EEDError, the error's message list compared exactly (nothing foreign, nothing twice), a consumer polling with wait=false while the packets arrive. After every packet size announcement a request longer than one packet is sent on the (older) channel and must go out in full packets of the new size; hook slices shared between registrations. Callbacks that return (true, err). Environment values of 254 / 255 bytes. A send completing while the response arrives (a message / environment change standing half-received is still reported once).",
+ "C12": "Also: packets for closed channels, more than 256 packets on a channel, a channel whose consumer is behind while another channel is closed, channels created after closes (late packets for closed ids reach nobody, ids distinct over the connection's history). A teardown acknowledged by the server while the channel is still registered; 40..520 channels created and closed over the life of one connection (33000 in the thorough tier), every id new and every response routed. A channel whose error queue is full is closed, the others go on. Stray packets without EOM or with other status bits before the response of an existing channel.",
+ "C13": "Also: header-only control packets in a full queue, Close with a cancelled parent context while a send is parked, 2..3 overlapping Close calls (Channel.Close during Conn.Close), and what a consumer woken by Close is told. A context cancelled from inside the transport's k-th write of a request (nothing more is written); Conn.Close with a gap in the channel ids; the closed condition checked the moment any of several overlapping Close calls returns. A next request (live context) after every send with a cancelled context: nothing of the cancelled one may be written later either; Reset() called before cancel / Close. Contexts cancelled with a cause / deadline with a cause; the main channel closed before Conn.Close; a parked request of several packets, also on the main channel (Close's logout waits for the message being sent). Close (channel or connection) with the reader parked on the channel's full error queue.",
+ "C14": "Also: three further receive calls after the failure, a consumer polling with wait=false after the prefix, and a request whose 1st..3rd write fails before the response arrives. The end of the stream reported by an error wrapping io.EOF (tunnelled transport), with or without the last bytes; packets of type NORMAL. Up to 40 further receive calls after the failure (more than the connection's error queue holds). A waiting consumer collects the buffered packages before it is told about the failure. Read timeouts of 5 s (3..13 s in the thorough tier) with the transport ending inside a packet body: the error is due by the timeout however long it is.",
  "C15": "Also: a failed read hands back only bytes of the stream (never more than available, never bytes nobody wrote). The caller changes and appends to slices returned by Bytes; three queues used in turns. A failed Bytes/Read hands out every byte it consumed. A queue written to after everything enqueued was read (open finding for empty enqueued packets behind the position).",
  "C16": "Also: String() after Precision/Scale were changed, integer parts too wide for the precision. Concurrent conversions under the race detector; magnitudes around 2^63. Precision / scale values whose low 8 / 16 / 32 bits look valid.",
  "C17": "Also: boundary strings for booleans and integers ('0', 'true', ...). Concurrent parsing under the race detector, json tag options, embedded unexported structs. Alias lists with empty elements.",
